@@ -58,7 +58,7 @@ func init() {
 		Rule: "multi-rule, multi-line texts (1-5 rules, line breaks, comments and blank lines between any two tokens) with exactly one faulty construct from the fault catalogue (arithmetic type faults and zero divisors, comparison and logic type faults, failing calls of all three kinds, failing assignments; element-read, forRange, missing-name, non-boolean-condition faults) at a generated place (assignment right-hand side, if / else-if / for condition, for init and step, return, call argument, conc child) under 0-2 enclosing statements (if, else, else-if, for, forRange); oracle: every `line <n>` cited in the error returned for that rule is the 1-based start line of the faulty node or of one of its ancestors up to the enclosing statement; must-cite classes cite at least one. Non-trivial: the faulty construct is not on the first line of its rule and the rule is not the first, or the construct spans >= 2 lines; distinct by case hash",
 		New:  func() interface{} { return &C20Case{} },
 		Gen: func(t *rapid.T) interface{} {
-			c := &C20Case{Prog: genFaultProgram(t, func(s *faultSpec) bool { return s.Name != "unbounded-for" && s.Name != "unbounded-for-with-continue" })}
+			c := &C20Case{Prog: genFaultProgram(t, nil)}
 			c.NRules = uni(t, "nrules", 1, 5)
 			c.RuleIdx = uni(t, "ruleidx", 0, c.NRules-1)
 			n := uni(t, "laylen", 5, 40)
